@@ -366,16 +366,102 @@ def lock_impl(ctx):
     return c, table, unlock
 
 
+def _direct_expiry(P, m, n, unlock):
+    if isinstance(n, ast.Compare) and len(n.ops) == 1:
+        l, r = n.left, n.comparators[0]
+        if isinstance(l, ast.BinOp) and isinstance(l.op, ast.Sub) and P.self_attr(r, m.self_name) == unlock:
+            return (n, n.ops[0], False)
+        if isinstance(r, ast.BinOp) and isinstance(r.op, ast.Sub) and P.self_attr(l, m.self_name) == unlock:
+            return (n, n.ops[0], True)
+    return None
+
+
+class _Subst(ast.NodeTransformer):
+    def __init__(self, mapping):
+        self.mapping = mapping
+
+    def visit_Name(self, node):
+        if node.id in self.mapping:
+            return self.mapping[node.id]
+        return node
+
+
+_NEG = {ast.Gt: ast.LtE, ast.GtE: ast.Lt, ast.Lt: ast.GtE, ast.LtE: ast.Gt, ast.Eq: ast.NotEq, ast.NotEq: ast.Eq}
+
+
 def _expiry_compares(P, m, unlock):
+    """comparisons of (now - stamp) with the auto-unlock time in m, looking through one level of helper methods
+    (`self.__isExpired(stamp, now)`) by substituting the call arguments, and through a leading `not`"""
+    import copy
     out = []
-    for n in U.walk_no_nested(m.node):
-        if isinstance(n, ast.Compare) and len(n.ops) == 1:
-            l, r = n.left, n.comparators[0]
-            if isinstance(l, ast.BinOp) and isinstance(l.op, ast.Sub) and P.self_attr(r, m.self_name) == unlock:
-                out.append((n, n.ops[0], False))
-            elif isinstance(r, ast.BinOp) and isinstance(r.op, ast.Sub) and P.self_attr(l, m.self_name) == unlock:
-                out.append((n, n.ops[0], True))
+    cls = m.owner_cls
+
+    def visit(n, negated):
+        if isinstance(n, ast.UnaryOp) and isinstance(n.op, ast.Not):
+            visit(n.operand, not negated)
+            return
+        d = _direct_expiry(P, m, n, unlock)
+        if d is not None:
+            cmpn, op, flipped = d
+            if negated:
+                c2 = copy.deepcopy(cmpn)
+                c2.ops = [_NEG[type(op)]()]
+                ast.copy_location(c2, cmpn)
+                out.append((c2, c2.ops[0], flipped))
+                origin[id(c2)] = cmpn
+                negflag[id(c2)] = True
+            else:
+                out.append(d)
+            return
+        if isinstance(n, ast.Call) and isinstance(n.func, ast.Attribute) and isinstance(n.func.value, ast.Name) and n.func.value.id == m.self_name and cls is not None:
+            h = P.lookup_method(cls, n.func.attr)
+            if h is not None and h is not m:
+                body = [s_ for s_ in h.node.body if not (isinstance(s_, ast.Expr) and isinstance(s_.value, ast.Constant))]
+                if len(body) == 1 and isinstance(body[0], ast.Return) and _direct_expiry(P, h, body[0].value, unlock) is not None and len(n.args) == len(h.params) - 1:
+                    mapping = dict(zip(h.params[1:], n.args))
+                    c2 = _Subst(mapping).visit(copy.deepcopy(body[0].value))
+                    for x in ast.walk(c2):
+                        ast.copy_location(x, n)
+                    if negated:
+                        c2.ops = [_NEG[type(c2.ops[0])]()]
+                    d2 = _direct_expiry(P, m, c2, unlock)
+                    if d2 is not None:
+                        out.append((c2, c2.ops[0], d2[2]))
+                        origin[id(c2)] = n
+                        negflag[id(c2)] = negated
+                    return
+        for c in ast.iter_child_nodes(n):
+            if isinstance(c, (ast.FunctionDef, ast.Lambda)):
+                continue
+            visit(c, False if not isinstance(n, ast.UnaryOp) else negated)
+    origin = {}
+    negflag = {}
+    for st in m.node.body:
+        visit(st, False)
+    _expiry_compares.origin = getattr(_expiry_compares, 'origin', {})
+    _expiry_compares.origin.update(origin)
+    _expiry_compares.neg = getattr(_expiry_compares, 'neg', {})
+    _expiry_compares.neg.update(negflag)
     return out
+
+
+def _dominated_by_expiry(cfg, node_id, cmpn):
+    """node is reached only through the edge on which the (possibly synthetic) comparison `cmpn` is true"""
+    pol = not getattr(_expiry_compares, 'neg', {}).get(id(cmpn), False)
+    for cn in _cond_nodes_for(cfg, cmpn):
+        tt = [d for d, l in cn.succ if l == ('cond', pol)]
+        ff = [d for d, l in cn.succ if l == ('cond', not pol)]
+        if node_id in cfg.reachable_from(cfg.entry.id, avoid=[cn.id]):
+            continue
+        if tt and node_id in cfg.reachable_from(tt[0], avoid=[cn.id]) and not (ff and node_id in cfg.reachable_from(ff[0], avoid=[cn.id])):
+            return True
+    return False
+
+
+def _cond_nodes_for(cfg, cmpn):
+    """CFG cond nodes of a (possibly synthetic, helper-inlined) expiry comparison"""
+    org = getattr(_expiry_compares, 'origin', {}).get(id(cmpn), cmpn)
+    return [x for x in U.nodes_containing(cfg, org) if x.kind == 'cond']
 
 
 @rule('R-lock-guards', 'the lock table changes only under its guards: acquire overwrites when absent, expired or same '
@@ -411,6 +497,19 @@ def r_lock_guards(ctx):
                               % res.path_str(n.id, cex), instance=inst)
             else:
                 ctx.violation('_ReplLockManagerImpl.acquire:stored-entry', m.loc(a.node), 'the stored entry is `%s`, expected (clientID, currentTime) under lockID' % unparse(a.node), instance=inst)
+    # acquire reports success only after (re)writing the entry with the current time
+    m = c.methods['acquire']
+    writes_ = [U.node_containing(ex.cfg, a.node).id for a in P.accesses(m) if a.attr == table and a.kind == 'elem_write']
+    for n in ex.cfg.nodes:
+        if n.kind == 'stmt' and isinstance(n.ast, ast.Return) and isinstance(n.ast.value, ast.Constant) and n.ast.value.value is True:
+            inst = 'acquire returns True only after storing (clientID, currentTime)'
+            ctx.tick()
+            if n.id in ex.cfg.reachable_from(ex.cfg.entry.id, avoid=writes_):
+                ctx.violation('_ReplLockManagerImpl.acquire:success-without-store', m.loc(n.ast),
+                              'acquire() can report success without (re)writing the lock entry: the stamp is not refreshed and an expired entry of the caller stays expired, '
+                              'so the next client is granted the same lock', instance=inst)
+            else:
+                ctx.ok(inst, m.loc(n.ast), 'unreachable when the table write is removed')
     # the local entry is discarded (treated as free) only when expired
     for d in U.walk_no_nested(m.node):
         if isinstance(d, ast.Assign) and isinstance(d.targets[0], ast.Name) and isinstance(d.value, ast.Constant) and d.value.value is None:
@@ -418,12 +517,7 @@ def r_lock_guards(ctx):
             inst = 'acquire treats a held lock as free only when expired'
             exp = _expiry_compares(P, m, unlock)
             ctx.tick()
-            dom = False
-            for cmpn, op, flipped in exp:
-                for cn in [x for x in U.nodes_containing(ex.cfg, cmpn) if x.kind == 'cond']:
-                    tt = [dd for dd, l in cn.succ if l == ('cond', True)]
-                    if n.id not in ex.cfg.reachable_from(ex.cfg.entry.id, avoid=[cn.id]) and tt and n.id in ex.cfg.reachable_from(tt[0], avoid=[cn.id]):
-                        dom = True
+            dom = any(_dominated_by_expiry(ex.cfg, n.id, cmpn) for cmpn, op, flipped in exp)
             if dom:
                 ctx.ok(inst, m.loc(d), 'dominated by the true edge of the expiry test')
             else:
@@ -465,12 +559,7 @@ def r_lock_guards(ctx):
         else:
             inst = 'prolongate drops only expired locks'
             exp = _expiry_compares(P, m, unlock)
-            dom = False
-            for cmpn, op, flipped in exp:
-                for cn in [x for x in U.nodes_containing(ex.cfg, cmpn) if x.kind == 'cond']:
-                    tt = [dd for dd, l in cn.succ if l == ('cond', True)]
-                    if tt and n.id in ex.cfg.reachable_from(tt[0], avoid=[cn.id]) and n.id not in ex.cfg.reachable_from(ex.cfg.entry.id, avoid=[cn.id]):
-                        dom = True
+            dom = any(_dominated_by_expiry(ex.cfg, n.id, cmpn) for cmpn, op, flipped in exp)
             if dom:
                 ctx.ok(inst, m.loc(a.node), 'dominated by the true edge of the expiry test')
             else:
@@ -483,10 +572,10 @@ def r_lock_guards(ctx):
         if n.kind == 'stmt' and isinstance(n.ast, ast.Return) and isinstance(n.ast.value, ast.Constant) and n.ast.value.value is True:
             inst = 'isAcquired is true only for the holder of an unexpired lock'
             okh = all(any(l[0] == 'eq' and any(t.key == m.params[2] for t in (l[1], l[2])) and any(t.key.endswith('[0]') for t in (l[1], l[2])) for l in fs) for fs in res.facts_at(n.id))
-            okt = all(any(l[0] in ('lt', 'le') and l[2].key == 'self.' + unlock for l in fs) for fs in res.facts_at(n.id))
+            okt = any(_dominated_by_expiry(ex.cfg, n.id, cmpn) for cmpn, op, flipped in _expiry_compares(P, m, unlock))
             ctx.tick()
             if okh and okt and res.facts_at(n.id):
-                ctx.ok(inst, m.loc(n.ast), 'holder equality and (now - stamp) < autoUnlockTime entailed')
+                ctx.ok(inst, m.loc(n.ast), 'holder equality entailed; dominated by the edge on which the holder-view expiry test holds')
             else:
                 ctx.violation('_ReplLockManagerImpl.isAcquired:%s' % ('holder-not-checked' if not okh else 'expiry-not-checked'), m.loc(n.ast),
                               'isAcquired can return True %s' % ('for a lock held by another client' if not okh else 'for an expired lock'), instance=inst)
